@@ -34,6 +34,7 @@ class Ctx:
         self.out_lists = out_lists  # name -> recname   (append-only lists of records in the state)
         self.closures = {}
         self.fresh = 0
+        self.yield_arity = 0
 
     def gensym(self):
         self.fresh += 1
@@ -136,7 +137,7 @@ def obj_expr(ctx, e):
 
 
 ARITH = {ast.Add: "Z.add", ast.Sub: "Z.sub", ast.Mult: "Z.mul", ast.FloorDiv: "Z.div", ast.Mod: "Z.modulo",
-         ast.BitAnd: "Z.land", ast.BitOr: "Z.lor"}
+         ast.BitAnd: "Z.land", ast.BitOr: "Z.lor", ast.LShift: "Z.shiftl", ast.RShift: "Z.shiftr"}
 ORDER = {ast.Lt: "Z.ltb", ast.LtE: "Z.leb", ast.Gt: "Z.gtb", ast.GtE: "Z.geb"}
 
 
@@ -153,12 +154,20 @@ def expr(ctx, e):
     if isinstance(e, ast.Name):
         if e.id in ctx.state:
             return T("(v_%s s)" % e.id, ctx.state[e.id])
+        if e.id in ctx.params and isinstance(ctx.params[e.id], tuple) and ctx.params[e.id][0] in ("Z", "optZ", "bool"):
+            return T(ctx.params[e.id][1], ctx.params[e.id][0])
         if e.id in ctx.params and not isinstance(ctx.params[e.id], tuple):
             return T(e.id, ctx.params[e.id])
         raise Decline("name " + e.id)
     if isinstance(e, ast.Attribute):
+        if isinstance(e.value, ast.Name) and (e.value.id + "." + e.attr) in ctx.params:
+            return T(ctx.params[e.value.id + "." + e.attr][1], ctx.params[e.value.id + "." + e.attr][0])
         rec, get = obj_expr(ctx, e.value)
         return get(e.attr)
+    if isinstance(e, ast.Subscript) and isinstance(e.value, ast.Name) and ctx.params.get(e.value.id) == "bytes":
+        ix = e.slice.value if isinstance(e.slice, ast.Index) else e.slice   # ast.Index before Python 3.9
+        i = to_z(ctx, expr(ctx, ix))
+        return bind_all(ctx, [i], lambda n: T("(byte_at %s %s)" % (e.value.id, n[0]), "Z", False))
     if isinstance(e, ast.UnaryOp):
         if isinstance(e.op, ast.USub):
             a = to_z(ctx, expr(ctx, e.operand))
@@ -307,6 +316,13 @@ def stmt(ctx, s):
             r = bind_all(ctx, [v], lambda n: T("(set_v_%s s (v_%s s ++ [%s]))" % (lst, lst, n[0]), "st"))
             return lifted(r)
         raise Decline("call statement " + ast.dump(call)[:60])
+    if isinstance(s, ast.Expr) and isinstance(s.value, ast.Yield) and ctx.yield_arity:
+        v = s.value.value
+        if not (isinstance(v, ast.Tuple) and len(v.elts) == ctx.yield_arity):
+            raise Decline("yield of something other than a %d-tuple" % ctx.yield_arity)
+        vals = [to_z(ctx, expr(ctx, x)) for x in v.elts]
+        r = bind_all(ctx, vals, lambda n: T("(set_v_out s (v_out s ++ [(%s)]))" % ", ".join(n), "st"))
+        return lifted(r)
     if isinstance(s, ast.FunctionDef):
         return None  # closures are translated separately
     raise Decline("statement " + type(s).__name__)
@@ -337,6 +353,8 @@ def record_decl(fields):
 def find_def(body, name):
     for n in body:
         if isinstance(n, ast.FunctionDef) and n.name == name:
+            if n.decorator_list:
+                raise Decline("decorated function " + name)
             return n
     raise Decline("no function " + name)
 
@@ -502,12 +520,67 @@ def translate_collapse_items(tree):
 
 
 # ---------------------------------------------------------------------------------------------------------
+# _blocks._parse_bytes: a generator over range(0, len(b), 2) with two accumulators
+
+def translate_parse_bytes(tree):
+    f = find_def(tree.body, "_parse_bytes")
+    if [a.arg for a in f.args.args] != ["b"]:
+        raise Decline("signature of _parse_bytes")
+    body = [s for s in f.body if not (isinstance(s, ast.Expr) and isinstance(s.value, ast.Constant))]
+    inits = []
+    i = 0
+    while i < len(body) and isinstance(body[i], (ast.AnnAssign, ast.Assign)):
+        st = body[i]
+        tg = st.target if isinstance(st, ast.AnnAssign) else st.targets[0]
+        if not (isinstance(tg, ast.Name) and isinstance(st.value, ast.Constant) and isinstance(st.value.value, int)
+                and not isinstance(st.value.value, bool)):
+            raise Decline("initialisation in _parse_bytes")
+        inits.append((tg.id, st.value.value))
+        i += 1
+    if not (i + 1 == len(body) and isinstance(body[i], ast.For)):
+        raise Decline("shape of _parse_bytes")
+    loop = body[i]
+    want = ast.dump(ast.parse("range(0, len(b), 2)", mode="eval").body)
+    if not (ast.dump(loop.iter) == want and isinstance(loop.target, ast.Name) and not loop.orelse):
+        raise Decline("loop header of _parse_bytes")
+    iv = loop.target.id
+    assigned = []
+    for n in ast.walk(loop):
+        tg = None
+        if isinstance(n, ast.Assign) and len(n.targets) == 1:
+            tg = n.targets[0]
+        elif isinstance(n, (ast.AugAssign, ast.AnnAssign)):
+            tg = n.target
+        if isinstance(tg, ast.Name) and tg.id not in assigned:
+            assigned.append(tg.id)
+    for n, _ in inits:
+        if n not in assigned:
+            assigned.append(n)
+    if iv in assigned:
+        raise Decline("loop variable reassigned")
+    state = {a: "Z" for a in sorted(assigned)}
+    params = {"b": "bytes", iv: "Z", "dis.EXTENDED_ARG": ("Z", "EXTENDED_ARG"),
+              "_c_int_upper_limit": ("Z", "PCD.Gen.Src.c_int_upper_limit"), "_c_int_length": ("Z", "PCD.Gen.Src.c_int_length")}
+    ctx = Ctx(state, params, {}, RECORDS, {})
+    ctx.yield_arity = 5
+    init_of = dict(inits)
+    fields = [("v_" + a, "Z", "(%d)" % init_of.get(a, 0)) for a in state] + [("v_out", "list (Z * Z * Z * Z * Z)", "[]")]
+    out = ["Module ParseBytes.", record_decl(fields),
+           "Definition body (EXTENDED_ARG : Z) (b : list Z) (s : st) (%s : Z) : res st :=\n  %s." % (iv, stmts(ctx, loop.body)),
+           "Definition parse_bytes (EXTENDED_ARG : Z) (b : list Z) : res (list (Z * Z * Z * Z * Z)) :=\n"
+           "  bind (foldM (body EXTENDED_ARG b) (range2 0 (zlen b)) init) (fun s => OK (v_out s)).",
+           "End ParseBytes."]
+    return "\n".join(out) + "\n"
+
+
+# ---------------------------------------------------------------------------------------------------------
 
 ITEMS = [("expand_items", "_line_mapping.py", translate_expand_items),
-         ("collapse_items", "_line_mapping.py", translate_collapse_items)]
+         ("collapse_items", "_line_mapping.py", translate_collapse_items),
+         ("parse_bytes", "_blocks.py", translate_parse_bytes)]
 
 HEADER = ("(* generated by harness/translate_lines.py from /repo/code_data/_line_mapping.py on every run; do not edit *)\n"
-          "From PCD Require Import Base.PyBase Base.PyImp.\n\n")
+          "From PCD Require Import Base.PyBase Base.PyImp.\nFrom PCD Require Gen.Src.\n\n")
 
 
 def generate(repo, outpath, fallback_dir, write_fallback=False):
